@@ -28,10 +28,36 @@ type Case struct {
 	Initial uint64   `json:"initial_height"`
 	Repeat  bool     `json:"repeated_tx_lists"`
 	Actions []string `json:"actions"`
+	// DBPath: the node's configured db_path; "" = the default. The property quantifies over clean restarts of any node, so
+	// also of one whose database (and whatever it keeps next to it) does not live under the default directory.
+	DBPath string `json:"db_path,omitempty"`
 }
 
 func (c Case) key() string {
-	return fmt.Sprintf("%s i%d r%v %s", c.Node, c.Initial, c.Repeat, strings.Join(c.Actions, " "))
+	k := fmt.Sprintf("%s i%d r%v %s", c.Node, c.Initial, c.Repeat, strings.Join(c.Actions, " "))
+	if c.DBPath != "" {
+		k += " db_path=" + c.DBPath
+	}
+	return k
+}
+
+// dbPathFor spreads non-default db_path settings over the generated cases (two in five) without touching the random
+// stream the schedules are drawn from.
+func dbPathFor(id int) string {
+	switch id % 5 {
+	case 1:
+		return "custom-db"
+	case 3:
+		return "a/b"
+	}
+	return ""
+}
+
+func (c Case) cleanRestartHit(r *vk.Run) {
+	r.Hit("clean-restart")
+	if c.DBPath != "" {
+		r.Hit("clean-restart-with-custom-db-path")
+	}
 }
 
 const keyD = "/m/d"
@@ -82,7 +108,7 @@ type obs struct {
 	r             *vk.Run
 	lastPersisted uint64 // largest DA-included height seen in a persist write
 	// starting: a Manager is being constructed right now (it may record the height it starts from: not a new inclusion)
-	starting atomic.Bool
+	starting      atomic.Bool
 	viol          []string
 	mu            sync.Mutex
 	lastD         uint64 // highest DA-included height ever observed (also across restarts)
@@ -238,7 +264,7 @@ func (a *agg) start() error {
 	dsp := world.NewMemDS(a.im)
 	dsp.OnWrite = a.o.onWrite
 	a.o.starting.Store(true)
-	n, err := world.NewNode(a.ctx, world.NodeOpts{Aggregator: true, InitialHeight: a.c.Initial, RootDir: a.root}, a.keys, dsp, a.exec, a.seq, a.da, nil)
+	n, err := world.NewNode(a.ctx, world.NodeOpts{Aggregator: true, InitialHeight: a.c.Initial, RootDir: a.root, DBPath: a.c.DBPath}, a.keys, dsp, a.exec, a.seq, a.da, nil)
 	a.o.starting.Store(false)
 	if err != nil {
 		return err
@@ -341,6 +367,7 @@ func (a *agg) do(act string) error {
 		_ = a.n.M.VerifSubmitHeadersOnce(a.ctx)
 		_ = a.n.M.VerifSubmitDataOnce(a.ctx)
 		a.o.r.Hit("stop-between-acceptance-and-inclusion")
+		a.c.cleanRestartHit(a.o.r)
 		a.logs = append(a.logs, a.n.DS.Log())
 		if err := a.n.M.SaveCache(); err != nil {
 			return fmt.Errorf("SaveCache: %w", err)
@@ -352,6 +379,7 @@ func (a *agg) do(act string) error {
 		}
 		a.logs = append(a.logs, a.n.DS.Log())
 		if act == "R" {
+			a.c.cleanRestartHit(a.o.r)
 			if err := a.n.M.SaveCache(); err != nil {
 				return fmt.Errorf("SaveCache: %w", err)
 			}
@@ -362,7 +390,8 @@ func (a *agg) do(act string) error {
 			if lh > d || ld > d {
 				a.gapAtCrash = true
 			}
-			_ = os.RemoveAll(a.root + "/data/cache")
+			// wherever the node keeps its cache snapshots: nothing else lives under its root directory (the database is in memory)
+			world.WipeDir(a.root)
 			a.o.mu.Lock()
 			a.o.finalsAtCrash[len(a.o.finals)] = true
 			a.o.mu.Unlock()
@@ -521,7 +550,7 @@ func runFull(r *vk.Run, p *world.Produced, c Case, acts []world.Action) {
 	ctx := context.Background()
 	root := world.TempDir(vk.Root(), "C07-*")
 	defer os.RemoveAll(root)
-	f, err := world.NewFN(ctx, p, root)
+	f, err := world.NewFNPrepared(ctx, p, root, func(f *world.FN) { f.DBPath = c.DBPath })
 	if err != nil {
 		r.Violation("startup", err.Error(), c)
 		return
@@ -568,6 +597,9 @@ func runFull(r *vk.Run, p *world.Produced, c Case, acts []world.Action) {
 			}
 			o.bad("action %s failed: %v", a, err)
 			return false
+		}
+		if a.Kind == "restart" || a.NoBarrier {
+			c.cleanRestartHit(r)
 		}
 		if a.Kind == "restart" || a.Kind == "crash-restart" || a.NoBarrier {
 			cur.Store(f.N)
@@ -699,14 +731,19 @@ func Run(r *vk.Run) {
 	}
 	var jobs []job
 	id := 0
+	// two generated cases in five run with a db_path other than the default (the crafted clean-stop cases below with both)
+	addJob := func(j job) {
+		j.c.DBPath = dbPathFor(j.c.ID)
+		jobs = append(jobs, j)
+	}
 	nAgg := r.N(250, 6000)
 	for i := 0; i < nAgg; i++ {
-		jobs = append(jobs, job{c: genAgg(rng, id, false, false)})
+		addJob(job{c: genAgg(rng, id, false, false)})
 		id++
 	}
 	// trigger regions
 	for i := 0; i < r.N(120, 1200); i++ {
-		jobs = append(jobs, job{c: genAgg(rng, id, false, true)})
+		addJob(job{c: genAgg(rng, id, false, true)})
 		id++
 	}
 	// crafted: three accepted blocks wait for inclusion and the process dies after the k-th durable write of the pass
@@ -716,12 +753,12 @@ func Run(r *vk.Run) {
 			for k := 0; k <= 10; k++ {
 				c := Case{ID: id, Node: "aggregator", Initial: initial}
 				c.Actions = append(append([]string{}, shape...), "H", "D", fmt.Sprintf("X%d", k), "P", "H", "D", "I", "R", "I")
-				jobs = append(jobs, job{c: c})
+				addJob(job{c: c})
 				id++
 				if k >= 1 && k <= 9 {
 					c2 := Case{ID: id, Node: "aggregator", Initial: initial}
 					c2.Actions = append(append([]string{}, shape...), "H", "D", fmt.Sprintf("Y%d", k), "I", "P", "H", "D", "I")
-					jobs = append(jobs, job{c: c2})
+					addJob(job{c: c2})
 					id++
 				}
 			}
@@ -735,10 +772,13 @@ func Run(r *vk.Run) {
 			c.Actions = append(append([]string{}, shape...), "Q")
 			jobs = append(jobs, job{c: c})
 			id++
+			c.ID, c.DBPath = id, []string{"custom-db", "a/b"}[id%2]
+			jobs = append(jobs, job{c: c})
+			id++
 		}
 	}
 	for i := 0; i < r.N(30, 300); i++ {
-		jobs = append(jobs, job{c: genAgg(rng, id, true, false)})
+		addJob(job{c: genAgg(rng, id, true, false)})
 		id++
 	}
 	ctx := context.Background()
@@ -761,11 +801,12 @@ func Run(r *vk.Run) {
 		for k := 0; k < r.N(15, 60); k++ {
 			c, acts := genFull(rng, p, id)
 			id++
-			jobs = append(jobs, job{c: c, p: p, acts: acts})
+			addJob(job{c: c, p: p, acts: acts})
 		}
 	}
 	r.Require("eventually-included", int64(len(jobs)/2))
 	r.Require("finalize-before-report", 200)
+	r.Require("clean-restart-with-custom-db-path", 40)
 	var wg sync.WaitGroup
 	ch := make(chan job)
 	for w := 0; w < 14; w++ {
